@@ -159,6 +159,7 @@ impl K {
 impl Clone for K {
     fn clone(&self) -> K {
         let (inst, epoch) = ledger_new(true, self.tag as u64, self.origin, true);
+        crate::sched::emit_user(crate::hb::U_CLONE_K, self.inst, inst);
         K {
             tag: self.tag,
             origin: self.origin,
